@@ -166,6 +166,17 @@ def check(h, baseline=None):
                 elif o[4] != payload(w.seed, r.tok, 'rs', r.rs):
                     viol('C11.b', 'wrong-payload', 'request tok=%x completed with a payload that is not its own' % r.tok, mode=r.mode)
 
+    # ---- C11.b (I/O control blocks): whatever completes a control block -- reply, error, reject, abort, also the stack's own
+    # no-response abort -- carries the invoke id of the request the block holds
+    for r in h.reqs:
+        if r.mode != 'iocb' or r.invoke is None or r.c not in h.stacks:
+            continue
+        for st in [h.stacks[r.c]] + [z for z in h.zombies if z.name == r.c]:
+            got = getattr(st.app, 'iocb_apdu_invoke', {}).get(r.tok)
+            if got is not None and got != r.invoke:
+                viol('C11.b', 'iocb-completed-by-other-id', 'request tok=%x (iocb, peer %s, invoke %d) was completed by a PDU carrying invoke id %d'
+                     % (r.tok, r.peer, r.invoke, got), cancelled_before=any(q.cancel_seq is not None for q in h.reqs))
+
     # ---- C11.c: stray confirmations (not attributable to any request)
     attributed = set()
     for r in h.reqs:
